@@ -161,6 +161,22 @@ def h_rescale(ctx, shape, k):
     ctx.claim('mantissa_unchanged', ctx.all_eq(Q1, Q2))
 
 
+def h_concrete_small_norm(ctx):
+    """Stabilised rounding of tensors with norm far below / above one equals the
+    plain rounding where both are representable (real code, fixed inputs: the
+    integer exponent bookkeeping p/d, p % d is not encodable with scale variables)."""
+    ok = True
+    for d, sc in [(3, 2. ** -3), (4, 2. ** -7), (5, 2. ** -11), (4, 2. ** 9), (7, 2. ** -5)]:
+        Y = teneva.rand([3] * d, 2, seed=d)
+        Y = [G * sc for G in Y]
+        Za = teneva.truncate(Y, 1e-10, use_stab=True)
+        Zb = teneva.truncate(Y, 1e-10)
+        Fa, Fb, F = teneva.full(Za), teneva.full(Zb), teneva.full(Y)
+        ok = ok and np.linalg.norm(Fa - F) <= 1e-8 * np.linalg.norm(F) and np.linalg.norm(Fa - Fb) <= 1e-8 * np.linalg.norm(F)
+        ok = ok and all(np.all(np.isfinite(G)) for G in Za)
+    ctx.claim('stabilised_rounding_equals_plain', bool(ok))
+
+
 def instances(tier):
     out = []
     quick = tier == 'quick'
@@ -178,6 +194,7 @@ def instances(tier):
         for k in range(d):
             out.append({'func': 'h_orth_stab_quasi', 'params': {'d': d, 'n': n, 'k': k}, 'opts': {'symbolic_signs': False}})
     out.append({'func': 'h_orth_stab_d2', 'params': {'n1': 2, 'n2': 2, 'r': 2}})
+    out.append({'func': 'h_concrete_small_norm', 'params': {}, 'opts': {'concrete_only': True}})
     for k in ([1, -3] if quick else [1, -1, 5, -7]):
         out.append({'func': 'h_rescale', 'params': {'shape': [1, 2, 1], 'k': k}})
     return out
